@@ -654,12 +654,20 @@ impl<'tcx> Cx<'tcx> {
                         ty::Visibility::Public => "pub".to_string(),
                         ty::Visibility::Restricted(m) => format!("in:{}", self.path(m)),
                     };
+                    let gens: Vec<String> = tcx
+                        .generics_of(did)
+                        .own_params
+                        .iter()
+                        .filter(|p| matches!(p.kind, ty::GenericParamDefKind::Type { .. }))
+                        .map(|p| js(&p.name.to_string()))
+                        .collect();
                     adts.push(format!(
-                        "{{\"path\":{},\"kind\":\"{:?}\",\"vis\":{},\"span\":{},\"variants\":[{}]}}",
+                        "{{\"path\":{},\"kind\":\"{:?}\",\"vis\":{},\"span\":{},\"generics\":[{}],\"variants\":[{}]}}",
                         js(&self.path(did)),
                         kind,
                         js(&vis),
                         self.span_json(tcx.def_span(did)),
+                        gens.join(","),
                         vs.join(",")
                     ));
                 }
